@@ -1,8 +1,9 @@
 #!/bin/bash
+ROOT=${VERIF_ROOT:-$(cd "$(dirname "$0")/.." && pwd)}
 # usage: coqgoal.sh theories/X/F.v LINE  -- show the proof state just before LINE (1-based)
 f=$1; n=$2
-tmp=/verif/.cache/goal_$$.v
-head -n $((n-1)) /verif/coq/$f > $tmp
+tmp=$ROOT/.cache/goal_$$.v
+head -n $((n-1)) $ROOT/coq/$f > $tmp
 echo "Show. Abort All." >> $tmp
-cd /verif/coq && timeout 120 coqc -Q theories RG $tmp 2>&1 | grep -v '^File\|^Error: .*Abort\|nothing to abort' | head -${3:-80}
-rm -f $tmp /verif/.cache/goal_$$.{vo,vok,vos,glob} /verif/.cache/.goal_$$.aux
+cd $ROOT/coq && timeout 120 coqc -Q theories RG $tmp 2>&1 | grep -v '^File\|^Error: .*Abort\|nothing to abort' | head -${3:-80}
+rm -f $tmp $ROOT/.cache/goal_$$.{vo,vok,vos,glob} $ROOT/.cache/.goal_$$.aux
